@@ -93,5 +93,42 @@ example : ∃ file, encryptFile Prims.toy 4 (List.replicate 100 7) [Recipient.x2
   let ⟨f, _, _, h, _, _⟩ := Props.C01.nonvacuous_roundtrip
   ⟨f, h⟩
 
+/-! ## non-vacuity witnesses (toy primitives of Proofs/ToyPrims) -/
+
+/-- non-vacuity of `impl_encrypt_eq_spec`: the never-failing destination, chunk size 4, counter limit 2^88, a 100-byte tape,
+    one X25519 recipient and the 5-byte plaintext `[1,2] ++ [3,4,5]` written in two calls (two chunks) -/
+theorem impl_encrypt_eq_spec_nonvacuous :
+    DstSpec.perfect.NeverFails ∧ 0 < 4 ∧
+    ([[1, 2], [3, 4, 5]] : List Bytes).flatten.length < (2 ^ 88 - 1) * 4 ∧
+    ∃ file, encryptFile Prims.toy 4 (List.replicate 100 7) [Recipient.x25519 (List.replicate 32 0)]
+      ([[1, 2], [3, 4, 5]] : List Bytes).flatten = .ok file :=
+  ⟨DstSpec.perfect_neverFails, by decide, by decide,
+   let ⟨f, _, _, h, _, _⟩ := Props.C01.nonvacuous_roundtrip; ⟨f, h⟩⟩
+
+/-- `impl_encrypt_eq_spec` applied to that witness (header written in pieces of 3, 1 and 50 bytes): its conclusion specialises -/
+example : ∃ file w k t' d2,
+    encryptInit Prims.toy (List.replicate 100 7) [Recipient.x25519 (List.replicate 32 0)] [3, 1, 50]
+      ({ acc := [9], st := () } : Dst DstSpec.perfect) = (.ok (w, k, t'), d2) ∧
+    (w.run Prims.toy.aead 4 (2 ^ 88) k (Props.C12.opsOf [[1, 2], [3, 4, 5]])).1.dst.acc = [9] ++ file := by
+  obtain ⟨hS, hC, hlen, file, henc⟩ := impl_encrypt_eq_spec_nonvacuous
+  obtain ⟨w, k, t', d2, h1, h2, _⟩ := impl_encrypt_eq_spec hS Prims.toy 4 (2 ^ 88) hC (List.replicate 100 7)
+    [Recipient.x25519 (List.replicate 32 0)] [3, 1, 50] ({ acc := [9], st := () } : Dst DstSpec.perfect) [[1, 2], [3, 4, 5]] file hlen henc
+  exact ⟨file, w, k, t', d2, h1, h2⟩
+
+/-- non-vacuity of `x25519_stanza_spec`: ephemeral secret 7…7, recipient key 5…5; both scalar multiplications succeed -/
+theorem x25519_stanza_spec_nonvacuous :
+    Prims.toy.x25519 (List.replicate 32 7) Prims.toy.basepoint = some (List.replicate 32 0) ∧
+    Prims.toy.x25519 (List.replicate 32 7) (List.replicate 32 5) = some (List.replicate 32 0) := ⟨rfl, rfl⟩
+
+/-- non-vacuity of `sshrsa_stanza_spec`: the toy OAEP encrypts a 16-byte file key -/
+theorem sshrsa_stanza_spec_nonvacuous :
+    Prims.toy.oaepEnc [1, 2, 3] (List.replicate 32 7) (List.replicate 16 4) oaepLabel = some (List.replicate 16 4) := rfl
+
+/-- non-vacuity of `sshed_stanza_spec`: same values as `x25519_stanza_spec_nonvacuous` (the hypotheses are the same two equations) -/
+theorem sshed_stanza_spec_nonvacuous :
+    Prims.toy.x25519 (List.replicate 32 7) Prims.toy.basepoint = some (List.replicate 32 0) ∧
+    Prims.toy.x25519 (List.replicate 32 7) (List.replicate 32 5) = some (List.replicate 32 0) := ⟨rfl, rfl⟩
+
+
 end Props.C05
 end AgeModel
